@@ -92,6 +92,7 @@ void mask_str(uint32_t mask, int n, char *buf, size_t len); /* "[0,3,5]" */
 #define MAXSTR 40
 typedef struct {
     cfg_t c; int desc; code_t cd; char ck[96];
+    int desc2;               /* a second, separately created instance of the same configuration (reader twin) */
     int nstr; stripe_t st[MAXSTR]; uint8_t *data[MAXSTR]; int kind[MAXSTR];
 } ctx_t;
 extern int LEC_MODEL_LEGACY;
